@@ -36,6 +36,7 @@ pub fn plan(prop: &str, tier: Tier) -> Option<(&'static str, Vec<Job>)> {
             Job::new("wire", if q { 40_000 } else { 1_500_000 }),
             Job::new("catalogue", if q { 600 } else { 6_000 }).caches(&["off", "big"]),
             Job::new("frames", if q { 1000 } else { 15_000 }).shrink(60),
+            Job::new("partlog", if q { 800 } else { 16_000 }).flavour("http").caches(&["off", "big"]),
         ],
         "C14" => vec![Job::new("partlog", if q { 1400 } else { 30_000 }).caches(all3)],
         "C15" => vec![Job::new("partlog", if q { 1400 } else { 30_000 }).caches(all3)],
